@@ -134,6 +134,11 @@ CLAIMED = {
    text="The Gibbs backend is modelled as a path sum over system basis states whose propagator orientations, stored-array orientation, factor formulas, coefficient cells, loop bound and thermal integrands are regenerated from the source on every run. Proved for all dimensions and step counts: diagonal Hamiltonians give diagonal Boltzmann-type states with exponent (summed Matsubara cells = eta(n dtau)-eta(0)) independent of the number of steps; at zero coupling the stored state is q^(2k)=expm(-k dtau H) for any (complex Hermitian) H, which only type-checks if the source stores the transposed backend arrays; trace one after normalisation, Hermiticity by path reversal; compute() is idempotent from any object state; the eta integrand at tau=1/T is beta J/omega and the large-frequency fall-back is accurate to O(exp(-omega/T)) also in imaginary time. The correspondence ships the real propagator and factor tables as exact rationals and compares dynamics, get_state, backend.data (identity and random initial arrays), coefficient cells, summed cells vs direct quadrature, time step, labels and counters after repeated compute() calls; hypotheses of the theorems are evaluated on the real tensors.",
    ref="§4 C11",
    note=TB + "modelled not verified: np.exp homomorphism, scipy expm(-H dtau/2), QUADPACK returning the integral, float time arguments denoting grid points, SVD truncation at epsrel 1e-13. Not shown: positivity, continuity in coupling strength, index wiring of the MPS contraction (correspondence only)."),
+ "C12": dict(
+   technique="Lean 4 proof over source-regenerated definitions (translator fragment BathShapes) + differential correspondence with the real code",
+   text="The difference formulas of CustomSD.correlation_2d_integral, the dblquad region of CustomCorrelations, the integrand expressions of correlation()/eta_function() (zero-temperature, thermal, large-frequency fall-back), the cutoffs and PowerLawSD's j-function are regenerated from oqupy/bath_correlations.py on every run. About them it is proved for all parameters: the shapes are the eta-cells of the time grid and tile (cells of the first n steps = whole triangle, rectangle additivity); for every continuous C with eta''=C the 2D integral over the documented region equals the difference formula (Mathlib interval integrals, all cell positions, real and imaginary time); C(-tau)=conj C(tau) pointwise and for any conjugation-compatible quadrature; the thermal kernels are the documented coth forms; the fall-back branch drops exactly the stand-alone exp(-w/T) terms with explicit error bounds in real and imaginary time; Re of the eta integrand is >= 0 (>= -eps*J/w^2 in the fall-back branch); Matsubara integrands are real; PowerLawSD = CustomSD with the power-law j. Each run compares the real code with the generated definitions (exact-rational shape evaluation with bit-exact time arguments, integrand closures in binary64 on both sides of the guard) and with direct numerical integration of correlation(), analytic cell integrals of finite-mode and exponential CustomCorrelations, tiling, symmetry, positivity and Matsubara reality.",
+   ref="§4 C12",
+   note=TB + "Mathlib (interval integral, FTC, Complex.exp); Lean Float/libm vs numpy at 1e-12; FloatModel binary64 for time arguments. Assumed, not proved: QUADPACK returns the integral of the integrand it is given (observed: scipy's default epsabs=1.49e-8 caps accuracy for alpha<~1e-3); differentiation under the omega-integral; Gamma closed form (search oracle only). Tolerance of the direct-integration comparison: 1e-6 of the cell + 2e-5 of the eta terms + 20 epsabs per term."),
  "C13": dict(
    technique="Lean 4 proof over a model regenerated from source (translator) + differential correspondence",
    text=("Step-count and label expressions of all APIs are regenerated from the source into Lean on every run; "
